@@ -239,9 +239,11 @@ def cleanupLoggers (inj : BSt → Nat → BSt) (s : BSt) : BSt :=
 
 def tsNowOf (s : BSt) : Option Nat := if s.cfg.grace = 0 then none else some (s.now - s.cfg.grace)
 
-/-- `_read_and_decode_frontend_queue` for context `i`; `inj` runs the operations injected at site 3 -/
+/-- `_read_and_decode_frontend_queue` for context `i`; `inj` runs the operations injected at site 3.
+    Every exit ends like the C++ (`if (total_bytes_read != 0) commit_read()`), also the one that only exists in the
+    model (loop fuel exhausted: unreachable unless more than 63 eligible records are injected into one single read). -/
 def readQueue (inj : BSt → Nat → BSt) (tsNow : Option Nat) (i : Nat) : Nat → Nat → BSt → BSt
-  | 0, _, s => s
+  | 0, total, s => if total ≠ 0 then s.setTh i (fun t => { t with q := qCommitRead s.cfg t.q }) else s
   | fuel + 1, total, s =>
     let th := s.th i
     let r := qPrepareRead s.cfg th.q
